@@ -619,8 +619,92 @@ func runC18Scenarios(c *Ctx) {
 			})
 		}
 	}
-}
 
+	// (c) the environment is replaced by a resume: the allowed languages in force when a text is chosen are the new ones
+	// (session kept in memory between the start and the resume)
+	for _, cl := range []string{"spa", "eng", "fra", ""} {
+		for _, before := range [][]string{{"eng", "spa"}, {"eng"}, {"spa", "eng"}, {"fra", "spa"}, {}} {
+			for _, after := range [][]string{{"eng", "spa"}, {"eng"}, {"spa", "eng"}, {"fra", "spa"}, {"spa"}, {}} {
+				a1, a2 := "95e6ccaa-d655-4d91-86e0-9eafffacf740", "a5e6ccaa-d655-4d91-86e0-9eafffacf741"
+				def := map[string]any{"uuid": "50c3706e-fedb-42c0-8eab-dda3335714b7", "name": "E", "spec_version": "13.6.0", "language": "eng", "type": "messaging", "revision": 1, "expire_after_minutes": 60,
+					"localization": map[string]any{"spa": map[string]any{a1: map[string]any{"text": []string{"Hola"}}, a2: map[string]any{"text": []string{"Gracias"}, "quick_replies": []string{"adios"}}}},
+					"nodes": []any{
+						map[string]any{"uuid": "72a1f5df-49f9-45df-94c9-d86f7ea064e5", "actions": []any{map[string]any{"uuid": a1, "type": "send_msg", "text": "Hello"}},
+							"router": map[string]any{"type": "switch", "wait": map[string]any{"type": "msg"}, "operand": "@input.text", "cases": []any{},
+								"categories": []any{map[string]any{"uuid": "37d8813f-1402-4ad2-9cc2-e9054a96525b", "name": "All", "exit_uuid": "d7a36118-0a38-4b35-a7e4-ae89042f0d3c"}}, "default_category_uuid": "37d8813f-1402-4ad2-9cc2-e9054a96525b"},
+							"exits": []any{map[string]any{"uuid": "d7a36118-0a38-4b35-a7e4-ae89042f0d3c", "destination_uuid": "82a1f5df-49f9-45df-94c9-d86f7ea064e6"}}},
+						map[string]any{"uuid": "82a1f5df-49f9-45df-94c9-d86f7ea064e6", "actions": []any{map[string]any{"uuid": a2, "type": "send_msg", "text": "Thanks", "quick_replies": []string{"bye"}}},
+							"exits": []any{map[string]any{"uuid": "f7a36118-0a38-4b35-a7e4-ae89042f0d3e"}}}}}
+				aj, _ := json.Marshal(map[string]any{"flows": []any{def}})
+				desc := map[string]any{"assets": json.RawMessage(aj), "contact_language": cl, "allowed_at_start": before, "allowed_from_resume": after, "label": "environment-replaced-by-resume"}
+				src, err := static.NewSource(aj)
+				if err != nil {
+					continue
+				}
+				mkEnv := func(ls []string) envs.Environment {
+					var langs []i18n.Language
+					for _, l := range ls {
+						langs = append(langs, i18n.Language(l))
+					}
+					return envs.NewBuilder().WithAllowedLanguages(langs...).Build()
+				}
+				env1, env2 := mkEnv(before), mkEnv(after)
+				sa, err := engine.NewSessionAssets(env1, src, nil)
+				if err != nil {
+					continue
+				}
+				// the fallback with the languages of the second environment: only spa has translations, eng is the flow's own
+				wantText, wantQR, wantLang := "Thanks", "bye", "eng"
+				var prefs []string
+				if cl != "" && contains(after, cl) {
+					prefs = append(prefs, cl)
+				}
+				if len(after) > 0 {
+					prefs = append(prefs, after[0])
+				}
+				for _, l := range append(prefs, "eng") {
+					if l == "eng" {
+						break
+					}
+					if l == "spa" {
+						wantText, wantQR, wantLang = "Gracias", "adios", "spa"
+						break
+					}
+				}
+				c.Guard("C18-run", "panic:localize", desc, func() {
+					restore := setDeterministic(1)
+					defer restore()
+					contact := flows.NewEmptyContact(sa, "Ann", i18n.Language(cl), nil)
+					contact.AddURN("tel:+12065550100", nil)
+					trig := triggers.NewBuilder(env1, assets.NewFlowReference("50c3706e-fedb-42c0-8eab-dda3335714b7", "E"), contact).Manual().Build()
+					s, _, err := engine.NewBuilder().Build().NewSession(sa, trig)
+					if err != nil {
+						return
+					}
+					sp, err := s.Resume(resumes.NewMsg(env2, nil, flows.NewMsgIn("0d1c5a36-fff5-4a0f-a2c7-02f7c7f3c4a8", "tel:+12065550100", nil, "ok", nil)))
+					if err != nil {
+						return
+					}
+					for _, e := range sp.Events() {
+						if m, ok := e.(*events.MsgCreatedEvent); ok {
+							c.Count("check:M-fallback-env-resume")
+							c.Eval(fmt.Sprintf("envresume|%s|%v|%v", cl, before, after))
+							l, _ := m.Msg.Locale().Split()
+							qr := ""
+							if len(m.Msg.QuickReplies()) > 0 {
+								qr = m.Msg.QuickReplies()[0]
+							}
+							if m.Msg.Text() != wantText || qr != wantQR || string(l) != wantLang {
+								c.Fail("monitor", "M-fallback", "fallback-after-environment-resume",
+									fmt.Sprintf("after a resume that replaces the environment the message is %q / %q in %q, the languages now allowed prescribe %q / %q in %q", m.Msg.Text(), qr, l, wantText, wantQR, wantLang), desc)
+							}
+						}
+					}
+				})
+			}
+		}
+	}
+}
 func contains(xs []string, x string) bool {
 	for _, y := range xs {
 		if y == x {
